@@ -6,7 +6,7 @@ from ..engines import session
 from . import _session_common as sc
 
 PROP = "C12"
-BUDGET = {"quick": 700, "thorough": 20000}
+BUDGET = {"quick": 1400, "thorough": 30000}
 ALARM_S = 900
 RULE = ("one seeded random process set, 2-4 variants differing in route per process (Event, Event whose Transition carries "
         "the rate, bare Transition via event=, legacy transition=/birth_death=, incremental add_* calls), birth named by "
